@@ -135,8 +135,9 @@ def grep_forbidden(files):
     return hits
 
 
-FACTS = {"C03": ["Formats"], "C04": ["Formats"], "C05": ["Formats"], "C18": ["Formats", "Reads"], "C20": ["Formats"],
-         "C09": ["Ranges"], "C08": ["Safety"], "C06": ["Literals"], "C07": ["Literals"]}
+FACTS = {"C03": ["Formats", "Dispatch"], "C04": ["Formats"], "C05": ["Formats"], "C18": ["Formats", "Reads"], "C20": ["Formats"],
+         "C09": ["Ranges"], "C08": ["Safety"], "C06": ["Literals", "Dispatch"], "C07": ["Literals", "Dispatch"],
+         "C01": ["Dispatch"], "C10": ["Dispatch"], "C11": ["Dispatch"], "C12": ["Dispatch"], "C13": ["Dispatch"], "C14": ["Dispatch"]}
 
 
 def audit_axioms(pid):
@@ -189,6 +190,7 @@ def gen_facts():
         "def depthGuards : List (String × String × String) := " + sites(f.get("depthGuards")),
         "def cliOptions : List (String × String × String) := " + sites(f.get("cliOptions")),
         "def goStatements : List (String × String × String) := " + sites(f.get("goStatements")),
+        "def directiveSeq : List (String × String × String) := " + sites(sorted(f.get("directiveSeq") or [], key=lambda x: (x["file"], x["func"]))),
         "end Bkl.Facts", ""])
     path = os.path.join(LEAN, "Generated", "Facts.lean")
     os.makedirs(os.path.dirname(path), exist_ok=True)
